@@ -251,8 +251,46 @@ pub fn emit_item(out: &mut String, i: usize, cat: &Catalogue) {
     out.push('\n');
 }
 
+/// Items reachable from a type (transitively), in index order.
+pub fn reachable_items(cat: &Catalogue, roots: &[usize]) -> Vec<usize> {
+    fn go(cat: &Catalogue, t: &Ty, seen: &mut std::collections::BTreeSet<usize>) {
+        match t {
+            Ty::Sc(_) | Ty::Json | Ty::Cs(_) => {}
+            Ty::P(t) | Ty::Opt(t) | Ty::Bx(t) | Ty::Vec(t) | Ty::HSet(t) | Ty::BSet(t) | Ty::Arr(t, _) => go(cat, t, seen),
+            Ty::Tup(ts) => ts.iter().for_each(|t| go(cat, t, seen)),
+            Ty::Map { val, .. } => go(cat, val, seen),
+            Ty::Item(i) => {
+                if !seen.insert(*i) {
+                    return;
+                }
+                match &cat.items[*i] {
+                    Item::Struct(s) => s.fields.iter().for_each(|f| go(cat, &f.ty, seen)),
+                    Item::Enum(e) => e.variants.iter().flat_map(|v| v.fields.iter().flatten()).for_each(|f| go(cat, &f.ty, seen)),
+                    Item::Conv(c) => go(cat, &c.via, seen),
+                }
+            }
+        }
+    }
+    let mut seen = std::collections::BTreeSet::new();
+    for r in roots {
+        go(cat, &cat.roots[*r].ty, &mut seen);
+    }
+    seen.into_iter().collect()
+}
+
 /// Emits the whole catalogue crate body.
 pub fn emit_catalogue(cat: &Catalogue) -> String {
+    let all: Vec<usize> = (0..cat.roots.len()).collect();
+    emit_roots(cat, &all)
+}
+
+/// Emits shard `k` of `n`: roots with index ≡ k (mod n) and the items they reach.
+pub fn emit_catalogue_shard(cat: &Catalogue, k: usize, n: usize) -> String {
+    let roots: Vec<usize> = (0..cat.roots.len()).filter(|i| i % n == k).collect();
+    emit_roots(cat, &roots)
+}
+
+fn emit_roots(cat: &Catalogue, roots: &[usize]) -> String {
     let mut out = String::new();
     out.push_str(
         "// @generated by mc-desc::emit — do not edit\n\
@@ -260,15 +298,15 @@ pub fn emit_catalogue(cat: &Catalogue) -> String {
          use mc_core::prelude::*;\n\
          use std::collections::{BTreeMap, BTreeSet, HashMap, HashSet};\n\n",
     );
-    for i in 0..cat.items.len() {
+    for i in reachable_items(cat, roots) {
         emit_item(&mut out, i, cat);
     }
-    for (k, r) in cat.roots.iter().enumerate() {
-        let _ = writeln!(out, "pub type T{k} = {};", ty_str(&r.ty, cat));
+    for &k in roots {
+        let _ = writeln!(out, "pub type T{k} = {};", ty_str(&cat.roots[k].ty, cat));
     }
     out.push_str("\npub fn entries() -> Vec<Entry> {\n    vec![\n");
-    for (k, r) in cat.roots.iter().enumerate() {
-        if cat.ty_generic(&r.ty) {
+    for &k in roots {
+        if cat.ty_generic(&cat.roots[k].ty) {
             let _ = writeln!(out, "        entry_all::<T{k}>({k}),");
         } else {
             let _ = writeln!(out, "        entry_rec::<T{k}>({k}),");
